@@ -261,6 +261,30 @@ theorem extract_inject_id (g : NGraph) (c : String) (wf : WFAt g c) : extractInj
   have h3 := restoreKeys_id g.rootKids g.rootKids (List.Perm.refl _) wf.rootKeys
   simp only [h1, h2, h3]
 
+/-- **restoreOrder_graph_id.** Whatever the nested layouts did to the ORDER of the three arenas in between (any
+    permutation of objects, of edges and of root children — unbounded, not a sampled shuffle), restoring the saved order
+    gives back the arena exactly. -/
+theorem restoreOrder_graph_id (g g' : NGraph)
+    (hobjs : g'.objs.Perm g.objs) (hedges : g'.edges.Perm g.edges) (hroot : g'.rootKids.Perm g.rootKids)
+    (hko : (g.objs.map (fun o : NObj => o.key)).Nodup) (hke : (g.edges.map (fun e : NEdge => e.key)).Nodup)
+    (hkr : g.rootKids.Nodup) :
+    restoreOrder (saveOrder g) g' = g := by
+  unfold restoreOrder saveOrder
+  simp only [restoreOrder_id g.objs g'.objs hobjs hko, restoreEdges_id g.edges g'.edges hedges hke,
+    restoreKeys_id g.rootKids g'.rootKids hroot hkr]
+
+/-- **extract_inject_all_id.** The walk of `LayoutNested` performs the round trip once per container it meets; for any
+    list of containers (any length, any order, repetitions allowed) that are well formed in `g`, the whole sequence of
+    round trips gives back the arena. -/
+theorem extract_inject_all_id (g : NGraph) (cs : List String) (wf : ∀ c ∈ cs, WFAt g c) :
+    cs.foldl (fun g c => extractInject g c false) g = g := by
+  induction cs with
+  | nil => rfl
+  | cons c rest ih =>
+    simp only [List.foldl_cons]
+    rw [extract_inject_id g c (wf c (by simp))]
+    exact ih (fun c' hc' => wf c' (by simp [hc']))
+
 /-- the hypotheses are satisfiable: container `a` with children `a.x`, `a.y`, an inner, an external and an
     outer edge -/
 def exampleGraph : NGraph :=
@@ -274,5 +298,10 @@ example : WFAt exampleGraph "a" :=
 
 example : (extract exampleGraph "a" false).nested.objs.map (·.key) = ["a.x", "a.y"] := by decide
 example : (extract exampleGraph "a" false).external.map (·.key) = ["e1"] := by decide
+
+example : restoreOrder (saveOrder exampleGraph)
+    { exampleGraph with objs := exampleGraph.objs.reverse, edges := exampleGraph.edges.reverse, rootKids := ["b", "a"] } =
+    exampleGraph :=
+  restoreOrder_graph_id _ _ (List.reverse_perm _) (List.reverse_perm _) (by decide) (by decide) (by decide) (by decide)
 
 end D2V.Nest
